@@ -84,6 +84,8 @@ SHAPES = {
     # the same fault kinds at the *first* position of a context (the absent stream listed first, a healthy
     # entry after it) and a second context whose first entry raises
     "faults-first": [("none", {"ghost_stream": [("probe_beta", {})], "v": [("probe_alpha", {"p": 3})]}), ("both", {"v": [("probe_boom", {}), ("probe_beta", {"r": 4})]})],
+    # an unknown test name listed before healthy tests of the same module and stream, and in the middle
+    "faults-name-first": [("none", {"v": [("no_such_test", {}), ("probe_alpha", {"p": 3}), ("no_such_test_2", {}), ("probe_beta", {})]})],
 }
 
 
